@@ -175,6 +175,27 @@ Proof.
           (conj one_pending_enqueue_all one_pending_pop)))).
 Qed.
 
+(* Condition.wait / FlowVar.value register current_tt.thread_player: the OUTERMOST routine on the parent
+   chain of the waiting routine (p is t or an ancestor of t, and p's own parent is not a routine), i.e.
+   the routine that plays on the clock however deeply the waiting routine is nested below it.
+   (Not proved: that the walk never runs out of fuel S (length rts), i.e. parent chains are acyclic.) *)
+Theorem wait_registers_thread_player : forall c w x t p,
+  nth_error (cells w) c = Some x -> cur w = Some (R t) -> cell_test x = false ->
+  tplayer (S (length (rts w))) w t = Some p ->
+  fst (fst (do_wait c w)) = set_cell c (mkCell (ckind_of x) (waiting x ++ [p])) w /\
+  snd (fst (do_wait c w)) = Some VHang /\
+  anc w p t /\ (forall y q, nth_error (rts w) p = Some y -> parent y <> Some (R q)).
+Proof. exact wait_registers_thread_player_l. Qed.
+
+(* played routine 0 -> relay 1 -> relay 2 -> waiting routine 3: routine 0 is registered and resumed once *)
+Example nested_wait_registers_played_routine :
+  let r := run patched chain_defs 10 [OCall (CPlay 0); OTick; OCall (CUnhang 0); OTick; OTick]
+               (init_world chain_defs [CCond false]) in
+  map (fun p => (fst p, map waiting (cells (snd p)), queue (snd p))) (snd r)
+  = [(Ret VNone, [[]], [(0%Z, 0%nat)]); (Ret VHang, [[0%nat]], []); (Ret VNone, [[]], [(0%Z, 0%nat)]);
+     (Ret (VStr 0), [[]], []); (Ret VNone, [[]], [])].
+Proof. exact chain_example_l. Qed.
+
 (* ---- real-time wake-ups (model/RtWake.v: the loop body of SystemClock._run / TempoClock._run /
    Scheduler._wakeup with main._in_awake_call).  Whatever the woken routine does - yields, ends,
    raises, YieldAndReset, AlwaysYield, nested routines, for every program, fuel and state - the flag
